@@ -176,6 +176,19 @@ class Scenario:
                 calls['n'] += 1
                 return orig_run(n)
             sim.run = interrupted_run
+        elif stop and stop[0] == 'ki_decode':
+            # Ctrl-C in the middle of a trial: inside the k-th decoder call
+            # of the run (decoding is where a run spends its time)
+            left = {'n': int(stop[1])}
+            for sim in batch._simulations:
+                for dec in ([sim.decoder] if hasattr(sim, 'decoder') else list(sim.decoders)):
+                    def interrupted_decode(syndrome, _orig=dec.decode, **kw):
+                        if left['n'] == 0:
+                            left['n'] -= 1
+                            raise KeyboardInterrupt('injected inside a decoder call')
+                        left['n'] -= 1
+                        return _orig(syndrome, **kw)
+                    dec.decode = interrupted_decode
         outcome = 'ok'
         with runner.quiet():
             with fs:
@@ -499,7 +512,7 @@ def histories(draw):
     for _ in range(draw(st.integers(1, 5))):
         target += draw(st.integers(0, 4))
         target = max(target, 1)
-        stop = draw(st.sampled_from([None, 'kill', 'kill', 'ki_save', 'ki_trial']))
+        stop = draw(st.sampled_from([None, 'kill', 'kill', 'ki_save', 'ki_trial', 'ki_decode']))
         run = {'target': target, 'sf': draw(st.integers(1, 4))}
         if stop == 'kill':
             run['stop'] = ['kill', draw(st.floats(0, 0.999)), draw(st.sampled_from(FRACS))]
@@ -507,6 +520,8 @@ def histories(draw):
             run['stop'] = ['ki_save', draw(st.floats(0, 0.999)), 0.5]
         elif stop == 'ki_trial':
             run['stop'] = ['ki_trial', draw(st.integers(0, 3)), draw(st.integers(0, target))]
+        elif stop == 'ki_decode':
+            run['stop'] = ['ki_decode', draw(st.integers(0, 12)), 0]
         if draw(st.integers(0, 5)) == 0:
             grows = [['size', 3, 3], ['size', 2, 4], ['rate', 0.15], ['rate', 0.25],
                      ['rate', 0.1 + 0.2], ['rate', 0.3]]
